@@ -35,16 +35,22 @@ NoBypass == (emitted # <<>>) => ApiOK(cfg, emitted)
 Attacks == {"tuple_ctor", "struct_literal", "hidden_module_ctor", "field_read", "field_write", "destructure",
             "deref_assign", "as_mut", "borrow_mut", "deref_mut", "mem_replace", "iter_mut", "for_in_mut", "push_through_deref",
             "call_sanitize", "call_validate", "new_unchecked_without_flag", "new_unchecked_without_unsafe",
-            "default_without_default", "from_with_validation", "name_private_type", "name_private_error", "name_private_parse_error"}
+            "default_without_default", "from_with_validation", "name_private_type", "name_private_error", "name_private_parse_error",
+            \* second catalogue wave: the same capabilities reached through other syntax
+            "struct_update", "ref_mut_pattern", "index_mut", "string_push_through_deref", "op_assign_through_deref",
+            "into_mut_ref", "as_mut_method", "swap_through_deref"}
 
 \* the capability an attack needs, as a predicate on the emitted items
 Needs(a, c, items) ==
-  CASE a \in {"tuple_ctor", "struct_literal", "field_read", "field_write", "destructure"} ->
+  CASE a \in {"tuple_ctor", "struct_literal", "field_read", "field_write", "destructure", "struct_update", "ref_mut_pattern"} ->
          \E i \in DOMAIN items : items[i].kind = "struct" /\ items[i].field_vis # ""
     [] a = "hidden_module_ctor" -> \E i \in DOMAIN items : items[i].kind = "mod" /\ items[i].vis # ""
-    [] a \in {"deref_assign", "deref_mut", "mem_replace", "iter_mut", "push_through_deref"} ->
+    [] a \in {"deref_assign", "deref_mut", "mem_replace", "iter_mut", "push_through_deref",
+               "index_mut", "string_push_through_deref", "op_assign_through_deref", "swap_through_deref"} ->
          \E i \in DOMAIN items : items[i].kind = "impl" /\ items[i].trait_name = "DerefMut"
-    [] a = "as_mut" -> \E i \in DOMAIN items : items[i].kind = "impl" /\ items[i].trait_name = "AsMut"
+    [] a \in {"as_mut", "as_mut_method"} -> \E i \in DOMAIN items : items[i].kind = "impl" /\ items[i].trait_name = "AsMut"
+    \* `(&mut t).into()` needs an impl of From / Into that hands out `&mut Inner`
+    [] a = "into_mut_ref" -> \E i \in DOMAIN items : items[i].kind = "impl" /\ items[i].trait_name \in {"From", "Into"} /\ items[i].for_mut_ref
     [] a = "borrow_mut" -> \E i \in DOMAIN items : items[i].kind = "impl" /\ items[i].trait_name = "BorrowMut"
     [] a = "for_in_mut" -> \E i \in DOMAIN items : items[i].kind = "impl" /\ items[i].trait_name = "IntoIterator" /\ items[i].for_mut_ref
     [] a \in {"call_sanitize", "call_validate"} -> \E i \in Fns(items) : items[i].name \in {"__sanitize__", "__validate__"} /\ items[i].vis # ""
@@ -57,9 +63,12 @@ Needs(a, c, items) ==
 
 \* which (configuration, attack) pairs make sense to try
 Applicable(a, c) ==
-  CASE a \in {"iter_mut", "for_in_mut", "push_through_deref"} -> c.fam = "any" /\ "Deref" \in c.traits
-    [] a \in {"deref_assign", "deref_mut", "mem_replace"} -> "Deref" \in c.traits
-    [] a = "as_mut" -> "AsRef" \in c.traits
+  CASE a \in {"iter_mut", "for_in_mut", "push_through_deref", "index_mut"} -> c.fam = "any" /\ "Deref" \in c.traits
+    [] a \in {"deref_assign", "deref_mut", "mem_replace", "swap_through_deref"} -> "Deref" \in c.traits
+    [] a = "string_push_through_deref" -> c.fam = "string" /\ "Deref" \in c.traits
+    [] a = "op_assign_through_deref" -> c.fam \in {"int", "float"} /\ "Deref" \in c.traits
+    [] a \in {"as_mut", "as_mut_method"} -> "AsRef" \in c.traits
+    [] a = "into_mut_ref" -> "Into" \in c.traits
     [] a = "borrow_mut" -> "Borrow" \in c.traits
     [] a = "call_validate" -> c.validated
     [] a = "new_unchecked_without_flag" -> ~c.new_unchecked
